@@ -7,9 +7,36 @@ DEFAULT_ENCODINGS = ["utf-8", "cp1252", "cp932", "cp949"]
 REPERTOIRE = {"utf-8": ["猫鍋", "é", "한글", "😀", "—", "a"], "cp1252": ["café", "Ünï", "£5", "a"], "cp932": ["猫鍋", "ｶﾀｶﾅ", "ねこ", "a"],
               "cp949": ["한글", "가나다", "a"]}
 UNDECODABLE = b"#TITLE:\x81 \x81;\n"
+# serialized lengths (in characters) at which block-wise writers and buffers change behaviour
+MARKS = [4096, 8192, 16384, 32768, 65536, 131072, 196608]
 
 
-def rand_file(rng, ext):
+def pad_to(rng, sf, mark, enc):
+    """pad GENRE so that the serialization is exactly `mark` characters long (False when it is already longer)"""
+    sf["GENRE"] = ""
+    n = len(str(sf))
+    if n > mark: return False
+    singles = ["a", "b"] + [w for w in REPERTOIRE.get(enc, []) if len(w) == 1 and w != "—"]
+    pool = [rng.choice(singles) for _ in range(64)]
+    k = mark - n
+    sf["GENRE"] = ("".join(pool) * (k // 64 + 1))[:k]
+    return len(str(sf)) == mark
+
+
+def exact_file(rng, ext, mark):
+    """(bytes, encoding, text): a canonical serialization of exactly `mark` characters"""
+    import simfile
+    for _ in range(20):
+        data, enc = rand_file(rng, ext, long_ok=False)
+        sf = (simfile.sm.SMSimfile if ext == ".sm" else simfile.ssc.SSCSimfile)(string=data.decode(enc))
+        if pad_to(rng, sf, mark, enc):
+            text = str(sf)
+            if len(text) == mark and encodable(text, enc):
+                return text.encode(enc), enc, text
+    raise core.Infra("could not build an exact-length file")
+
+
+def rand_file(rng, ext, long_ok=True):
     """(bytes, the encoding it was written in) for a small simfile whose text comes from one code page's repertoire"""
     enc = rng.choice(DEFAULT_ENCODINGS)
     w = lambda: rng.choice(REPERTOIRE[enc])
@@ -21,7 +48,7 @@ def rand_file(rng, ext):
         text = "#VERSION:0.83;\n#TITLE:%s;\n#ARTIST:%s;\n#BPMS:0.000=120.000;\n" % (w(), w())
         if rng.random() < .5:
             text += "#NOTEDATA:;\n#STEPSTYPE:dance-single;\n#DESCRIPTION:%s;\n#NOTES:\n0000\n0100\n;\n" % w()
-    if rng.random() < .18:
+    if long_ok and rng.random() < .18:
         # a long value so that multi-byte characters straddle the 4096/8192/16384-byte and -character marks
         target = rng.choice([4096, 8192, 8192, 16384]) + rng.randrange(-40, 40)
         filler = ""
@@ -107,7 +134,16 @@ def run(ctx):
     try:
         for i in range(ctx.scale(700, 6000)):
             ext = rng.choice([".sm", ".ssc"])
-            data, written_in = rand_file(rng, ext) if rng.random() < .93 else (UNDECODABLE, None)
+            exact_in = exact_out = None
+            if i < len(MARKS) * 2 or rng.random() < .03:
+                # serializations of exactly 4096 … 196608 characters, on the way in (the backup) and/or on the way out
+                mark = MARKS[(i // 2) % len(MARKS)] if i < len(MARKS) * 2 else rng.choice(MARKS)
+                if i % 2 == 0 or rng.random() < .5: exact_in = mark
+                if i % 2 == 1 or rng.random() < .5: exact_out = mark
+            if exact_in:
+                data, written_in, _ = exact_file(rng, ext, exact_in)
+            else:
+                data, written_in = rand_file(rng, ext) if rng.random() < .93 else (UNDECODABLE, None)
             tries = list(DEFAULT_ENCODINGS)
             mode = rng.choice(["default", "default", "custom", "explicit"])
             if mode == "custom":
@@ -116,6 +152,8 @@ def run(ctx):
                 tries = [rng.choice(DEFAULT_ENCODINGS)]
             outn = rng.choice([None, None, "out" + ext, "in" + ext, ""])
             bakn = rng.choice([None, None, "in.bak", "in" + ext, "out" + ext, ""])
+            if exact_in or exact_out:
+                mode = "default"; tries = list(DEFAULT_ENCODINGS); bakn = rng.choice(["in.bak", "in.bak", None]); outn = rng.choice([None, "out" + ext])
             kind = rng.choice(["native", "memory"])
             w = World(kind, tmp, i, {"in" + ext: data, "other.txt": b"bystander", "out" + ext: b"old output"} if rng.random() < .5 else {"in" + ext: data, "other.txt": b"bystander"})
             P = lambda n: None if n is None else ("" if n == "" else w.path(n))
@@ -125,6 +163,9 @@ def run(ctx):
             detected = next((e for e, ok in tr if ok), None)
             case = {"fs": kind, "ext": ext, "bytes": data.decode("latin-1"), "written_in": written_in, "tries": tries, "mode": mode,
                     "output": outn, "backup": bakn}
+            if exact_in or exact_out:
+                case["bytes"] = case["bytes"][:200] + "…"; case["exact_length_in"] = exact_in; case["exact_length_out"] = exact_out
+                res.count("exact_length_cases")
             res.case(case, nontrivial=any(b > 127 for b in data) and bool(outn or bakn))
             res.count("detected_%s" % detected); res.traces += 1
             # open / open_with_detected_encoding -----------------------------------------------------
@@ -152,11 +193,21 @@ def run(ctx):
             del w.rec.log[:]; w.rec.wcalls = 0
             entry = [None]; exit_ = [None]; ok_domain = [True]
             steps = rng.choice([0, 0, 1, 4, 10])
+            romanise = rng.random() < .3      # the saved file may then decode under an earlier encoding of the list
+            case["romanise"] = romanise
             try:
                 with simfile.mutate(cfg["input"], output_filename=cfg["output"], backup_filename=cfg["backup"], try_encodings=tries, filesystem=w.fs) as sf:
                     entry[0] = objs.dump(sf)
                     snapshot_rng = rng.getstate()
                     edit(rng, sf, detected, steps)
+                    if romanise:
+                        for k in list(sf.keys()):
+                            if isinstance(sf[k], str) and any(ord(c) > 127 for c in sf[k]): sf[k] = "romanised"
+                        for ch in sf.charts:
+                            for k in list(ch.keys()):
+                                if isinstance(ch[k], str) and any(ord(c) > 127 for c in ch[k]): ch[k] = "romanised"
+                    if exact_out and not pad_to(rng, sf, exact_out, detected):
+                        exact_out = None
                     if not in_domain(sf, detected):
                         ok_domain[0] = False
                         raise simfile.CancelMutation
@@ -205,19 +256,62 @@ def run(ctx):
                         res.violation(case, "the backup does not parse to the simfile as it stood at block entry", impl=c01._diff(got_b, exp_b)); w.close(); continue
             except Exception as e:
                 res.violation(case, "written file does not decode/parse in the detected encoding", impl=core.exc_name(e)); w.close(); continue
-            # a second, no-op mutate leaves the bytes unchanged when read in the same encoding again
+            # a second mutate of the file just written: the encoding is detected afresh from the bytes on disk (it may differ
+            # from the first one when the edit removed what made the earlier encodings fail), and the save obeys the same rules
             outpath = w.path(outname)
-            enc2 = next((e for e in tries if decodes(after[outname], e)), None)
-            if enc2 == detected:
-                try:
-                    with simfile.mutate(outpath, try_encodings=tries, filesystem=w.fs) as sf:
-                        pass
-                    if w.snapshot().get(outname) != after[outname]:
-                        res.violation(case, "a no-op mutate changed the bytes of a file mutate had written"); w.close(); continue
-                except Exception as e:
-                    res.violation(case, "second (no-op) mutate raised", impl=core.exc_name(e))
-            else:
-                res.count("second_pass_detects_other_encoding")
+            cur = after[outname]
+            tr2 = [[e, decodes(cur, e)] for e in tries]
+            enc2 = next((e for e, ok in tr2 if ok), None)
+            noop = rng.random() < .35
+            case2 = dict(case, second_mutate={"noop": noop, "detected": enc2})
+            if enc2 != detected: res.count("second_pass_detects_other_encoding")
+            del w.rec.log[:]; w.rec.wcalls = 0
+            exit2 = [None]; ok2 = [True]
+            try:
+                with simfile.mutate(outpath, try_encodings=tries, filesystem=w.fs) as sf:
+                    if not noop:
+                        sf["SUBTITLE"] = "again " + rng.choice(REPERTOIRE[enc2])
+                        if not in_domain(sf, enc2):
+                            ok2[0] = False
+                            raise simfile.CancelMutation
+                    exit2[0] = objs.dump(sf)
+                out2 = "returned"
+            except Exception as e:
+                out2 = core.exc_name(e)
+            if not ok2[0]:
+                w.close(); continue
+            log2 = [[op[0], op[1]] + ([op[2]] if op[0].startswith("open") else []) for op in w.rec.log]
+            after2 = w.snapshot()
+            try:
+                cls(string=cur.decode(enc2)); unparseable = None
+            except Exception as e:
+                # read under another encoding than the one it was written in, the bytes can be a different, even malformed, document
+                # (a cp1252 'é\\' is one cp932 character: the backslash that escaped a ';' is gone): the loader's error propagates
+                unparseable = core.exc_name(e)
+            if unparseable:
+                res.count("second_pass_unparseable_under_detected_encoding")
+                if enc2 == detected:
+                    res.violation(case2, "a file mutate wrote does not load under the encoding it was written in", impl=unparseable)
+                elif out2 != unparseable or after2 != after:
+                    res.violation(case2, "the saved file does not parse under the encoding detected now, but mutate did not raise the loader's error / touched files", impl=out2, expected=unparseable)
+                w.close(); continue
+            if out2 != "returned":
+                res.violation(case2, "second mutate of the saved file raised", impl=out2, saved_bytes=cur.decode("latin-1")[:600]); w.close(); continue
+            if {k for k in set(after) | set(after2) if after.get(k) != after2.get(k)} - {outname}:
+                res.violation(case2, "second mutate touched a file other than the one it was given"); w.close(); continue
+            if noop and enc2 == detected and after2.get(outname) != cur:
+                res.violation(case2, "a no-op mutate changed the bytes of a file mutate had written"); w.close(); continue
+            try:
+                got2 = objs.dump(cls(string=after2[outname].decode(enc2)))
+                exp2 = exit2[0] if ext == ".sm" else c02.notes_last(exit2[0])
+                if got2 != exp2:
+                    res.violation(case2, "after a second mutate the file does not parse, in the encoding it was read in, to the simfile at block exit",
+                                  impl=c01._diff(got2, exp2)); w.close(); continue
+            except Exception as e:
+                res.violation(case2, "after a second mutate the file does not decode in the encoding it was read in (%s)" % enc2, impl=core.exc_name(e)); w.close(); continue
+            reqs.append({"op": "mutate.run", "input": outpath, "output": None, "backup": None, "tries": tr2,
+                         "body": "returns", "problem": "none", "files": [w.path(n) for n in after]})
+            metas.append((case2, out2, log2, {w.path(k): v for k, v in after.items()}, {w.path(k): v for k, v in after2.items()}, enc2, None, exit2[0], None))
             w.close()
     finally:
         shutil.rmtree(tmp, ignore_errors=True)
